@@ -10,7 +10,7 @@ CONFIG = {
     'C02': dict(streams=[('td_exact', 880), ('td_wf', 480), ('td_mid', 160), ('panic', 240), ('fail_wf', 240)], keep='ov'),
     'C03': dict(streams=[('bu_class', 320), ('bu_wf', 720), ('mixed_wf', 320), ('newreq', 160), ('cutoff_newreq', 160), ('reported_products', 160), ('fail_bu', 200), ('mid_session', 160)], keep='ovm', extra='lossy'),
     'C04': dict(streams=[('bu_class', 320), ('bu_wf', 960), ('mixed_wf', 160), ('newreq', 160), ('cutoff_newreq', 240), ('reported_products', 120), ('abort_bu', 240)], keep='ov'),
-    'C05': dict(streams=[('inj_hidden', 1200), ('siblings', 240), ('td_wf', 160), ('same_session', 80), ('chain_readers', 160)], keep='om', extra='wabort'),
+    'C05': dict(streams=[('inj_hidden', 1200), ('siblings', 240), ('td_wf', 160), ('same_session', 80), ('chain_readers', 160), ('newreq', 240)], keep='om', extra='wabort'),
     'C06': dict(streams=[('inj_overlap', 1200), ('td_wf', 160), ('same_session', 80), ('newreq', 160)], keep='om', extra='wabort'),
     'C07': dict(streams=[('inj_cycle', 880), ('reorder_cycle', 240), ('cycle_query', 240), ('newreq', 160), ('mid_session', 240)], keep='ov'),
     'C08': dict(streams=[('td_wf', 560), ('bu_wf', 320), ('multi', 80), ('panic', 240), ('abort_bu', 120), ('newreq', 160), ('same_abort', 80), ('fail_wf', 160)], keep='od'),
